@@ -136,6 +136,13 @@ pub fn space_t1() -> DevSpace {
     DevSpace::build("t=1: every position of every base shape x 256 values x PEC stale/re-computed", sh.into_iter().map(|s| s.bytes).collect(), tuples, 1)
 }
 
+/// t = 1 restricted to the core shapes.
+pub fn space_t1_core() -> DevSpace {
+    let sh: Vec<Shape> = shapes().into_iter().filter(|s| s.core).collect();
+    let tuples = sh.iter().map(|s| (0..s.bytes.len()).map(|p| vec![p]).collect()).collect();
+    DevSpace::build("t=1: every position of every core shape x 256 values x PEC stale/re-computed", sh.into_iter().map(|s| s.bytes).collect(), tuples, 1)
+}
+
 fn sym_positions(len: usize, set: &[isize]) -> Vec<usize> {
     // negative = from the end (-1 = PEC, -2 = last data byte)
     let mut v: Vec<usize> = set
